@@ -133,10 +133,21 @@ func c03Exact(args []string) error {
 		// cylinder, capsule
 		ch, cr := u(0.3, 6), u(0.2, 3)
 		crd := []float64{0, u(0, 1), 1}[i%3] * math.Min(cr, ch/2)
-		cy, _ := sdf.Cylinder3D(ch, cr, crd)
 		kr := u(0.2, 2)
 		kh := 2*kr + u(0, 5)
+		if i%5 == 4 {
+			// degenerate but valid: the capsule whose height is exactly its diameter is a sphere; likewise the
+			// cylinder rounded up to the admissible maximum
+			kr = []float64{1, 0.5, 1.25, kr}[(i/5)%4]
+			kh = 2 * kr
+			if ch <= 2*cr {
+				crd = ch / 2
+			} else {
+				crd = cr
+			}
+		}
 		ca, _ := sdf.Capsule3D(kh, kr)
+		cy, _ := sdf.Cylinder3D(ch, cr, crd)
 		// cone (both slopes), rounded
 		nh, n0, n1 := u(0.5, 6), u(0.5, 3), u(0.1, 3)
 		if i%2 == 1 {
